@@ -147,6 +147,16 @@ def loops_strategy(draw, tier):
         act = draw(st.sampled_from(["discrete", "box"]))
     elif algo in ("DDPG", "TD3"):
         act = draw(st.sampled_from(["box", "box_asym"]))
+    if loop in ("offline", "off_policy", "on_policy") and obs in ("vector", "discrete") and draw(st.integers(0, 5)) == 0:
+        # a run that ENDS BY EARLY STOPPING: the target is exceeded from the start, the loops stop once 100 step entries exist,
+        # i.e. after generation 99 - tiny generations keep this cheap
+        evo = max(envs, 1) * draw(st.integers(1, 2))
+        case = {"loop": loop, "algo": algo, "obs": obs, "obsv": draw(st.integers(0, 2)), "actv": draw(st.integers(0, 2)), "act": act,
+                "envs": envs, "pop": draw(st.integers(1, 2)), "seed": draw(st.integers(0, 999)), "ep_len": draw(st.integers(2, 5)),
+                "evo_steps": evo, "max_steps": evo * 130, "eval_steps": 2, "batch_size": 2, "learn_step": max(envs, 1),
+                "learning_delay": 0, "memory": "uniform", "evolve": False, "mut_probs": [1, 0, 0, 0, 0], "checkpoint": None,
+                "target": -1e9, "resume": 0, "early_stop": True}
+        return case
     return {"loop": loop, "algo": algo, "obs": obs, "obsv": draw(st.integers(0, 2)), "actv": draw(st.integers(0, 2)), "act": act,
             "envs": envs, "pop": pop, "seed": draw(st.integers(0, 999)), "ep_len": draw(st.integers(2, 7)),
             "evo_steps": evo, "max_steps": max_steps, "eval_steps": draw(st.sampled_from([None, 3, 5])),
